@@ -81,7 +81,7 @@ FINE = {
 TYPES = ['SimpleContract', 'Contract', 'Transport', 'ExtendedTransport', 'Storage', 'MultiCommodityContract']
 
 
-def gen_case(rnd, oracle=None, kind=None, atype=None, dst=None):
+def gen_case(rnd, oracle=None, kind=None, atype=None, dst=None, straddle=False):
     fine = rnd.choice(['h', 'h', 'h', 'h', '30min', '15min', '2h', 'd'])
     if dst is None:
         dst = rnd.random() < 0.08   # daily steps of 23/24/25 hours: fine steps of unequal length under a coarse frequency
@@ -149,6 +149,24 @@ def gen_case(rnd, oracle=None, kind=None, atype=None, dst=None):
     # window of the focus asset
     wkind = rnd.choice(['none', 'none', 'none', 'inside', 'offgrid']) if not oracle else rnd.choice(['none', 'none', 'none', 'inside'])
     m0 = mults[0] if mults else 1
+    if 'freq' in opt and m0 >= 2 and 'periodicity' not in opt and (straddle or rnd.random() < 0.12):
+        # the asset's window starts part of a coarse step BEFORE the horizon: its first coarse interval is only partly covered
+        # by the grid (its length is the length of the covered fine steps)
+        # (so many fine steps that the window is a whole number of coarse steps: no trailing remainder, finding F-19b)
+        k_ = (m0 - T % m0) % m0
+        if k_ == 0:
+            if straddle:
+                return gen_case(rnd, oracle=oracle, kind=kind, atype=atype, dst=dst, straddle=True)
+            k_ = m0      # a whole coarse step before the horizon would raise (F-19b): leave the window alone
+        s_ = pd.Timestamp(tg.timepoints[0]).tz_localize(None) - (k_ % m0) * step
+        try:
+            if tz is not None:
+                s_.tz_localize(tz)
+            if k_ % m0:
+                args['start'] = {'$dt': iso(s_)}
+            wkind = 'none'
+        except Exception:
+            pass
     if wkind != 'none' and T >= 4 * m0:
         a = rnd.randint(0, 1) * m0
         b = T - rnd.randint(0, 1) * m0
@@ -237,6 +255,10 @@ def gen_case(rnd, oracle=None, kind=None, atype=None, dst=None):
             args['no_simult_in_out'] = True
         if (not oracle and rnd.random() < 0.15) or probe == 'cost_store':
             args['cost_store'] = 0.125
+    if 'freq' in opt and 'start' in args and wkind == 'none':
+        # shifted coarse steps: take periods cut at grid points are no longer aligned with them (finding F-13g is about that)
+        args.pop('max_take', None)
+        args.pop('min_take', None)
     focus = {'type': atype, 'name': 'X', 'nodes': nodes, 'args': args}
     others = []
     allnodes = ['n1', 'n2'] if len(nodes) == 2 or rnd.random() < 0.2 else ['n1']
@@ -262,6 +284,12 @@ def cases(seed, n):
     # fine steps of unequal length inside one coarse step (23/25-hour days under a coarser frequency), optimised
     for i in range(max(4, n // 12)):
         yield 'dst%d' % i, gen_case(random.Random(rnd.getrandbits(48)), oracle=True, kind='freq', dst=True)
+    for i in range(max(6, n // 12)):
+        yield 'straddle%d' % i, gen_case(random.Random(rnd.getrandbits(48)), oracle=True, kind='freq', straddle=True)
+    # every class that accepts the periodicity option really repeats (also the derived ones that rely on their parent for it)
+    for i in range(max(6, n // 10)):
+        r1 = random.Random(rnd.getrandbits(48))
+        yield 'pertype%d' % i, gen_case(r1, oracle=True, kind=r1.choice(['per', 'perdur']), atype=TYPES[i % len(TYPES)])
 
 
 # ------------------------------------------------------------------ running the implementation with recorders
